@@ -14,6 +14,7 @@ import (
 	"flag"
 	"fmt"
 	"os"
+	"regexp"
 	"runtime"
 	"runtime/pprof"
 	"sort"
@@ -65,10 +66,11 @@ func main() {
 	replay := flag.String("replay", "", "replay file")
 	verbose := flag.Bool("v", false, "print the trace of a replay")
 	dump := flag.Bool("dump", false, "print generated scenarios instead of running them")
-	maxFind := flag.Int("maxfind", 3, "stop after this many distinct findings")
+	maxFind := flag.Int("maxfind", 12, "stop after this many distinct findings")
 	markers := flag.Bool("markers", false, "print a marker line to stderr before each run (race attribution)")
 	record := flag.Bool("record", false, "include the replay of the last run in the aggregate")
 	printAll := flag.Bool("printall", false, "include the fingerprint of every run, in order, in the aggregate")
+	knownFile := flag.String("known", "", "known_findings.json: open findings do not count towards -maxfind")
 	cpuprof := flag.String("cpuprofile", "", "write a CPU profile")
 	flag.Parse()
 	procs := 1
@@ -93,6 +95,24 @@ func main() {
 	prints := map[string]struct{}{}
 	sigs := map[string]bool{}
 	claims := claimsOf(*prop)
+	type knownT struct {
+		Status, Property, Kind string
+		SiteRegex              string `json:"site_regex"`
+	}
+	var known []knownT
+	if *knownFile != "" {
+		if b, err := os.ReadFile(*knownFile); err == nil {
+			var kf struct{ Findings []knownT }
+			if json.Unmarshal(b, &kf) == nil {
+				for _, k := range kf.Findings {
+					if k.Status == "open" && k.Property == *prop {
+						known = append(known, k)
+					}
+				}
+			}
+		}
+	}
+	newFindings := 0
 	flush := func(code int) {
 		for p := range prints {
 			ag.Prints = append(ag.Prints, p)
@@ -109,6 +129,7 @@ func main() {
 		}
 		os.Exit(code)
 	}
+	nils := 0
 	for i := *from; ; i += *stride {
 		if *maxRuns > 0 && ag.Runs >= *maxRuns {
 			break
@@ -120,8 +141,13 @@ func main() {
 		rs := ssim.Mix(*seed, propNum(*prop), uint64(i))
 		sc := generate(*prop, *tier, rs, i)
 		if sc == nil {
+			nils++
+			if nils > 2000 {
+				break
+			}
 			continue
 		}
+		nils = 0
 		if *dump {
 			b, _ := json.MarshalIndent(sc, "", " ")
 			fmt.Println(string(b))
@@ -185,12 +211,23 @@ func main() {
 			sigs[v.Sig()] = true
 			vv := v
 			ag.Findings = append(ag.Findings, Finding{Violation: v, Replay: Replay{Scenario: *sc, Decisions: append([]int(nil), rec.Log...), Violation: &vv, Fingerprint: res.Fingerprint}})
+			isKnown := false
+			for _, k := range known {
+				if k.Kind == v.Kind {
+					if ok, _ := regexp.MatchString(k.SiteRegex, v.Site); ok {
+						isKnown = true
+					}
+				}
+			}
+			if !isKnown {
+				newFindings++
+			}
 		}
 		if res.Outcome != "" {
 			ag.Aborted = true
 			flush(3)
 		}
-		if len(ag.Findings) >= *maxFind {
+		if newFindings >= *maxFind {
 			break
 		}
 	}
